@@ -148,6 +148,11 @@ class Repo:
             tree = ast.parse(text, filename=str(path))
         except (OSError, SyntaxError, UnicodeDecodeError) as e:
             raise AnalysisError(f"cannot parse {rel}: {e}")
+        if pkg_root is not None:
+            # pure renames of locals are undone before any rule looks at the code (see alpha.py)
+            from . import alpha
+
+            self.renamed = getattr(self, "renamed", 0) + alpha.normalise(rel, tree)
         is_pkg = path.name == "__init__.py"
         if modname is None:
             relmod = Path(rel).relative_to(pkg_root) if pkg_root else Path(rel)
